@@ -43,15 +43,19 @@ def handledInner (c : Cl) (e : Ev) : Bool :=
 def handled (c : Cl) (e : Ev) : Bool :=
   (match getRec c e.n with
    | some r => r.state == 3 || r.state == 4
-   | none => false) || (c.hasGroup && handledInner c e)
+   | none => false) || (routes c e && handledInner c e)
 
 theorem step1_handled (retry : Cl → Option (Cl × Res)) (nx : Nat) (c : Cl) (e : Ev)
-    (hs : Synced c.g) (hg : c.hasGroup = true) (hh : handledInner c e = true) :
+    (hs : Synced c.g) (hg : routes c e = true) (hh : handledInner c e = true) :
     proj (step1 retry nx c e).1 = proj c := by
   have hs' : Synced (withSecret c).g := synced_withSecret c hs
   unfold step1
   simp only [hg, Bool.not_true, Bool.false_eq_true, if_false]
   unfold handledInner at hh
+  by_cases hact : c.g.active = false
+  · simp [hact]
+  have hact' : c.g.active = true := by simpa using hact
+  simp only [hact', Bool.not_true, Bool.false_eq_true, if_false]
   split
   · simp
   · cases hk : e.kind with
